@@ -340,11 +340,13 @@ set_operation(PyObject *s1, PyObject *s2,
 
       UNLESS(r=BUCKET(PyObject_CallObject(OBJECT(&BucketType), NULL)))
         goto err;
+      VERIF_OBJ_FAULT_GOTO(r, err);
     }
   else
     {
       UNLESS(r=BUCKET(PyObject_CallObject(OBJECT(&SetType), NULL)))
         goto err;
+      VERIF_OBJ_FAULT_GOTO(r, err);
     }
 
   if (i1.next(&i1) < 0) goto err;
@@ -570,6 +572,7 @@ multiunion_m(PyObject *ignored, PyObject *args)
 
   /* Construct an empty result set. */
   result = BUCKET(PyObject_CallObject(OBJECT(&SetType), NULL));
+  VERIF_OBJ_FAULT(result);
   if (result == NULL)
     return NULL;
 
